@@ -16,12 +16,13 @@ open Gama
 section
 variable {K : Type} [Field K] [LinearOrder K] [IsStrictOrderedRing K] (sq : K → K)
 
-/-- End to end: for every well-formed sparse `A`, every valid ordering `o`, `tol > 0`, the
+/-- End to end: for every well-formed sparse `A` (also without columns: no hypothesis `0 < A.cols` any more),
+    every valid ordering `o`, `tol > 0`, the
     packed `Envelope(A, graph(A), o)` after `cholDec(tol)` holds the factor computed by the
     solver model's dense `Ls.Env.ldl` on the permuted normal matrix (L, D with exact zeros,
     defect); `solve` equals `Ls.Env.solve`; `inverse` equals `Ls.Env.zEntry` inside the profile. -/
 theorem C16_envelope_refines_ls_dense (A : SMat K) (hA : A.WF) (o : SOrdering) (ho : o.IsPerm A.cols)
-    (hpos : 0 < A.cols) (tol : K) (htol : 0 < tol) :
+    (tol : K) (htol : 0 < tol) :
     let S := ordFieldScalar K sq
     let T := Gama.fieldScalar sq
     let F := @Env.cholDec K S (@Env.ofSparse K S A (graphOf A) o) tol
@@ -35,6 +36,20 @@ theorem C16_envelope_refines_ls_dense (A : SMat K) (hA : A.WF) (o : SOrdering) (
     (∀ i j, 1 ≤ j → j ≤ i → i ≤ A.cols → i - j ≤ @Env.width K F i →
       @Env.entry K S (@Env.inverse K S F) i j = @Ls.Env.zEntry K T rows A.cols (i - 1) (j - 1)) := by
   intro S T F N' rows
+  by_cases hpos : 0 < A.cols
+  swap
+  · -- no columns (`C16_no_columns`): `Envelope::set` leaves the empty envelope, every loop has zero iterations
+    have h0 : A.cols = 0 := by omega
+    have hF : F = Env.empty := by
+      show @Env.cholDec K S (@Env.ofSparse K S A (graphOf A) o) tol = _
+      rw [@Env.ofSparse_zero K S A _ o h0]; rfl
+    refine ⟨fun i j h1 h2 h3 => by omega, fun i h1 h2 => by omega, ?_, ?_, fun i j h1 h2 h3 => by omega⟩
+    · show F.defect = Ls.Env.defectOf (@Ls.Env.ldl K T N' tol A.cols)
+      rw [hF, h0]; rfl
+    · intro b hb
+      show @Env.solve K S F b A.cols = @Ls.Env.solve K T (@Ls.Env.ldl K T N' tol A.cols) A.cols (fun i => b.getD i 0)
+      have hb0 : b = #[] := Array.eq_empty_of_size_eq_zero (by omega)
+      rw [hF, h0, hb0]; rfl
   have hE := @Env.ofSparse_profileOK K S A (graphOf A) o hA (graphOf_nodes A) (graphOf_adjOf A hA) ho hpos
   have hdim : (@Env.ofSparse K S A (graphOf A) o).dim = A.cols := @Env.ofSparse_dim K S A _ o
   have hN : ∀ i j, 1 ≤ j → j ≤ i → i ≤ (@Env.ofSparse K S A (graphOf A) o).dim →
